@@ -1,6 +1,7 @@
 import D2P.Props.Examples
 import D2P.Model.Output
 import D2P.Proofs.Elems
+import D2P.Props.C02Stray
 /-!
 # Open findings, as kernel-checked witnesses
 
@@ -46,6 +47,14 @@ exactly one open paragraph, an implicit one -/
 theorem stray_run_pending :
     (match walkL cfg [] false ({ bullets := { numAttrs := [] } } : DC) [r 2 [t 3 "stray"]] with
       | .ok s => some (elems s) | .error _ => none) = some [none] := by
+  decide +kernel
+
+/-- non-vacuity of `C02_stray_block` / `C02_stray_then_paragraph`: a display equation directly in the
+body and a stray run both meet the hypotheses -/
+def strayEq : Xml := mel 4 "oMathPara" none [mel 5 "oMath" none [mel 6 "r" none [mel 7 "t" (some (lit "z")) []]]]
+theorem stray_hypotheses :
+    opensFirst strayEq = true ∧ flatInline strayEq = true ∧
+    opensFirst (r 2 [t 3 "stray"]) = true ∧ flatInline (r 2 [t 3 "stray"]) = true := by
   decide +kernel
 
 end D2P.Ex
